@@ -133,9 +133,13 @@ class ClckEngine:
 		sim.clock_offset = cfg.get("clock_offset", 0)
 		durs = {int(k): v for k, v in plan.get("durs", {}).items()}
 		res = Result()
-		old = (clck_gen.threading, clck_gen.time)
-		clck_gen.threading = ThreadingSeam(sim)
-		clck_gen.time = TimeSeam(sim)
+		saved = []
+
+		def patch(mod, name, value):
+			saved.append((mod, name, mod.__dict__[name]))
+			setattr(mod, name, value)
+		from sim.seams import install_seams
+		install_seams([clck_gen], patch, sim)
 		toolkit.capture_logs(lambda lvl, fn, msg: sim.record("log", level=lvl, file=fn, msg=msg))
 		# record timed waits / sleeps of any thread as "wait-enter"
 		_orig_at = None
@@ -197,7 +201,8 @@ class ClckEngine:
 			viols = check_history(sim.history, cfg, ended, sim.blocked_threads(), res.probes)
 		finally:
 			sim.abort()
-			clck_gen.threading, clck_gen.time = old
+			for mod, name, val in reversed(saved):
+				setattr(mod, name, val)
 			toolkit.release_logs()
 		for v in viols:
 			v["owners"] = ["C09"]
